@@ -351,7 +351,7 @@ def run_life(prop, tier, seed, keep=False):
             r = w.run_drive(["run", "-in", "scenarios.json", "-reps", "3", "-seed", str(seed), "-out", "trace.ndjson"])
             log(r.stderr.strip())
             summarize_trace(w.path("trace.ndjson"), ev, "")
-            rc = trace_validate(w, prop, ["C09", "C06", "OptsIntact"], "trace.ndjson", ev, label="redefine-scenarios")
+            rc = trace_validate(w, prop, ["C09", "C06", "C01", "OptsIntact"], "trace.ndjson", ev, label="redefine-scenarios")
         if rc == 0 and prop == "C11":
             # run-once functions of every form inside ordinary scenarios (a converter needed several times in one call)
             n = 2500 if tier == "quick" else 25000
